@@ -500,6 +500,48 @@ pub fn child_run_case(c: &Case, bufs: &Bufs, engine: Engine, family: Family, out
         let need = (c.prog.len() / 8 * 64 + 8192 + 4095) & !4095;
         let _ = vm.set_jit_exec_memory(exec_memory(need));
     }
+    // A third of the compiled cases that use helpers or a calculator are first compiled with DECOY
+    // helpers (the function registered under each id shifted by one) and a decoy calculator, then
+    // re-configured correctly and compiled again: the second compilation must describe the VM as it
+    // is now (a compile that keeps earlier code makes the helper log / result disagree).
+    if engine != Engine::Interp && (c.prog.len() / 8) % 3 == 1 && (!c.helpers.is_empty() || c.calc != CalcSpec::None) {
+        let _ = sys::catch(|| -> Result<(), String> {
+            for (id, j) in &c.helpers {
+                vm.register_helper(*id, helper_for((*j + 1) % hlp::NH, family))?;
+            }
+            if c.calc != CalcSpec::None {
+                vm.set_calc(calc_fn, Box::new(CalcSpec::Const(48)))?;
+            }
+            match engine {
+                Engine::Jit => vm.jit_compile()?,
+                #[cfg(feature = "std")]
+                Engine::Cranelift => vm.cl_compile()?,
+                _ => {}
+            }
+            Ok(())
+        });
+        let redo = sys::catch(|| -> Result<(), String> {
+            for (id, j) in &c.helpers {
+                vm.register_helper(*id, helper_for(*j, family))?;
+            }
+            if c.calc != CalcSpec::None {
+                vm.set_calc(calc_fn, Box::new(c.calc.clone()))?;
+            }
+            Ok(())
+        });
+        // (no_std: a compilation consumes the caller-supplied memory; hand over a new region)
+        #[cfg(not(any(feature = "std", feature = "stdlite")))]
+        if engine == Engine::Jit {
+            let need = (c.prog.len() / 8 * 64 + 8192 + 4095) & !4095;
+            let _ = vm.set_jit_exec_memory(exec_memory(need));
+        }
+        if !matches!(redo, Ok(Ok(()))) {
+            rec.status = 5;
+            rec.msg = format!("re-configuration after a decoy compilation failed: {redo:?}");
+            rec.encode(out);
+            return;
+        }
+    }
     let comp = sys::catch(|| match engine {
         Engine::Jit => vm.jit_compile(),
         #[cfg(feature = "std")]
